@@ -39,7 +39,7 @@ ASSUMPTIONS = [
 
 def params(tier):
     if tier == 'quick':
-        return {'examples': 2200, 'wall': 80, 'case_timeout': 40, 'targets': 8}
+        return {'examples': 2200, 'wall': 120, 'case_timeout': 40, 'targets': 8}
 
     return {'examples': 12000, 'wall': 600, 'case_timeout': 60, 'targets': 20}
 
